@@ -64,8 +64,8 @@ func govcWF(da *doubleArray) error {
 			queue = append(queue, y)
 		}
 		if da.bc[x].IsSingleParam() {
-			if y := nextIndex(da.bc[x].Base(), ParamCharacter); y < len(da.bc) && da.bc[y].Check() != ParamCharacter {
-				return fmt.Errorf("single-parameter cell %d: ':' edge labelled %q", x, da.bc[y].Check())
+			if y := nextIndex(da.bc[x].Base(), ParamCharacter); y >= len(da.bc) || da.bc[y].Check() != ParamCharacter {
+				return fmt.Errorf("single-parameter cell %d: no ':' edge", x)
 			}
 		}
 		if da.bc[x].IsWildcardParam() {
